@@ -270,6 +270,25 @@ class FrameReader:
                 out.append((q, None))
             return out
         if t == "bin":
+            if n[2] == "BitAnd" and (H.lit_int(n[5]) is not None or H.tag(H.strip(n[5])) == "path"):
+                res = self.ev(n[4], p)
+                out = []
+                for q, v in res:
+                    if v == ("sf-raw", "l3"):
+                        m = H.lit_int(n[5])
+                        if m is None:
+                            c = self.g.f(self.crate).const(H.strip(n[5])[1])
+                            m = int(c["val"]) if c and c.get("val") is not None else None
+                        if m == 0x7FFFFF:
+                            out.append((q, ("sf", "l3")))
+                        else:
+                            lost = 0x7FFFFF & ~(m or 0)
+                            self.unk(f"the 3-byte size is masked with {m:#x}: only the marker bit 23 may be cleared (mask 0x7fffff); size bits {lost:#x} are dropped, "
+                                     f"so size fields of {(lost & -lost):#x} and above are decoded as a smaller body and the rest of the frame is read as the next header" if m is not None else "the 3-byte size is masked with a non-constant", n)
+                            out.append((q, None))
+                    else:
+                        out.append((q, None))
+                return out
             return [(p, None)]
         return [(p, None)]
 
@@ -301,6 +320,8 @@ class FrameReader:
                 return ("sf", "s2")
             if len(nz) == 3 and [x[1] for x in nz] == [0, 1, 2] and nz[0][2] == 0x7F and nz[1][2] is None and nz[2][2] is None and xs[-3:] == nz and len(xs) == 4:
                 return ("sf", "l3")
+            if len(nz) == 3 and [x[1] for x in nz] == [0, 1, 2] and all(x[2] is None for x in nz) and xs[-3:] == nz and len(xs) == 4:
+                return ("sf-raw", "l3")  # still carries the large-header marker (bit 23): must be cleared by a word-level mask
             self.unk("size bytes are not the big-endian bytes 0..1 (or 0&0x7F,1,2) of the header", arg)
             return None
         if last == "from_le_bytes":
